@@ -154,7 +154,9 @@ func c02Scenarios(tier string) []*Scenario {
 	}
 	// the failure / allow_failure family (same scenarios as C08; here the run-once / dependencies-first monitor decides)
 	for _, sc := range c08Scenarios(tier) {
-		if tier != "thorough" && !strings.HasPrefix(sc.Name, "dag1/") && !strings.HasPrefix(sc.Name, "dag2/") {
+		// quick tier: every graph on one and two tasks, and the three-task chain (a dependency that never ran because its
+		// own dependency failed is not an "allowed failure")
+		if tier != "thorough" && !strings.HasPrefix(sc.Name, "dag1/") && !strings.HasPrefix(sc.Name, "dag2/") && !strings.HasPrefix(sc.Name, "dag3/a b<-a c<-b/") {
 			continue
 		}
 		sc.Name = "outcomes/" + sc.Name
